@@ -556,10 +556,19 @@ class Tdf:
 
         comment = comment if comment is not None else old_entry.comment
 
-        # make sure the new block and its comment can be written
-        # before the old block is removed
+        # make sure the new block and its table entry (format, dates,
+        # comment) can be written before the old block is removed
+        TdfEntry(
+            type=newBlock.type,
+            format=newBlock.format.value,
+            offset=old_entry.offset,
+            size=newBlock.nBytes,
+            creation_date=newBlock.creation_date,
+            last_modification_date=newBlock.last_modification_date,
+            last_access_date=datetime.now(),
+            comment=comment,
+        )._write(BytesIO())
         newBlock._write(BytesIO())
-        BTSString.write(256, comment)
 
         self.remove_block(newBlock.type)
         self.add_block(newBlock, comment)
